@@ -64,7 +64,7 @@ Inductive presult := PDone | PErr | PPanic.
 
 (* the loop of parse_body; events are accumulated in reverse.
    Returns (events in order, how the parser ended). *)
-Fixpoint parse_loop (debug : bool) (input : list byte) (pos : nat) (stop_pos : nat)
+Fixpoint parse_loop (debug : bool) (input : list byte) (pos : N) (stop_pos : N)
          (state : body_state) (first id : list byte) (acc : list event) : list event * presult :=
   match input with
   | [] =>
@@ -88,48 +88,48 @@ Fixpoint parse_loop (debug : bool) (input : list byte) (pos : nat) (stop_pos : n
   | b :: r =>
     match state with
     | SkippingNewLine =>
-      parse_loop debug r (S pos) stop_pos (if b =? 10 then ParsingFirstToken else SkippingNewLine) first id acc
+      parse_loop debug r (pos + 1) stop_pos (if b =? 10 then ParsingFirstToken else SkippingNewLine) first id acc
     | ParsingFirstToken =>
       if is_white_space b then
         match first with
-        | [] => parse_loop debug r (S pos) stop_pos ParsingFirstToken first id acc
+        | [] => parse_loop debug r (pos + 1) stop_pos ParsingFirstToken first id acc
         | c :: rest =>
           match parse_first_token debug first with
           | Err => (rev_append acc [], PErr)
           | Panic => (rev_append acc [], PPanic)
           | Ok (FtTime v) =>
             (* time_token_start = pos - first.len() - 1 *)
-            if (pos <? length first + 1)%nat then (rev_append acc [], PPanic)
-            else if (stop_pos <? pos - length first - 1)%nat then (rev_append acc [], PDone)
-            else parse_loop debug r (S pos) stop_pos ParsingFirstToken [] id (EvTime v :: acc)
+            if pos <? N.of_nat (length first) + 1 then (rev_append acc [], PPanic)
+            else if stop_pos <? pos - N.of_nat (length first) - 1 then (rev_append acc [], PDone)
+            else parse_loop debug r (pos + 1) stop_pos ParsingFirstToken [] id (EvTime v :: acc)
           | Ok FtOneBit =>
-            parse_loop debug r (S pos) stop_pos ParsingFirstToken [] id (EvValue [c] rest :: acc)
-          | Ok FtMultiBit => parse_loop debug r (S pos) stop_pos ParsingIdToken first id acc
-          | Ok FtComment => parse_loop debug r (S pos) stop_pos LookingForEndToken [] id acc
-          | Ok FtIgnored => parse_loop debug r (S pos) stop_pos ParsingFirstToken [] id acc
+            parse_loop debug r (pos + 1) stop_pos ParsingFirstToken [] id (EvValue [c] rest :: acc)
+          | Ok FtMultiBit => parse_loop debug r (pos + 1) stop_pos ParsingIdToken first id acc
+          | Ok FtComment => parse_loop debug r (pos + 1) stop_pos LookingForEndToken [] id acc
+          | Ok FtIgnored => parse_loop debug r (pos + 1) stop_pos ParsingFirstToken [] id acc
           end
         end
-      else parse_loop debug r (S pos) stop_pos ParsingFirstToken (first ++ [b]) id acc
+      else parse_loop debug r (pos + 1) stop_pos ParsingFirstToken (first ++ [b]) id acc
     | ParsingIdToken =>
       if is_white_space b then
         match id with
-        | [] => parse_loop debug r (S pos) stop_pos ParsingIdToken first id acc
-        | _ => parse_loop debug r (S pos) stop_pos ParsingFirstToken [] [] (EvValue first id :: acc)
+        | [] => parse_loop debug r (pos + 1) stop_pos ParsingIdToken first id acc
+        | _ => parse_loop debug r (pos + 1) stop_pos ParsingFirstToken [] [] (EvValue first id :: acc)
         end
-      else parse_loop debug r (S pos) stop_pos ParsingIdToken first (id ++ [b]) acc
+      else parse_loop debug r (pos + 1) stop_pos ParsingIdToken first (id ++ [b]) acc
     | LookingForEndToken =>
       if is_white_space b then
         match first with
-        | [] => parse_loop debug r (S pos) stop_pos LookingForEndToken first id acc
-        | _ => parse_loop debug r (S pos) stop_pos
+        | [] => parse_loop debug r (pos + 1) stop_pos LookingForEndToken first id acc
+        | _ => parse_loop debug r (pos + 1) stop_pos
                           (if bytes_eqb first kw_end then ParsingFirstToken else LookingForEndToken) [] id acc
         end
-      else parse_loop debug r (S pos) stop_pos LookingForEndToken (first ++ [b]) id acc
+      else parse_loop debug r (pos + 1) stop_pos LookingForEndToken (first ++ [b]) id acc
     end
   end.
 
 (* parse_body: both values of starts_on_new_line start in SkippingNewLine (as in the code) *)
-Definition parse_body (debug : bool) (input : list byte) (stop_pos : nat) : list event * presult :=
+Definition parse_body (debug : bool) (input : list byte) (stop_pos : N) : list event * presult :=
   parse_loop debug input 0 stop_pos SkippingNewLine [] [] [].
 
 (* id_to_int *)
@@ -193,7 +193,7 @@ Fixpoint feed_events (lookup : id_lookup) (ve : vcd_encoder) (evs : list event) 
 
 (* read_single_stream_of_values: a panic of the encoder comes before the parser's own end *)
 Definition read_single_stream (debug : bool) (tpes : list sig_enc) (lookup : id_lookup)
-           (input : list byte) (stop_pos : nat) (is_first : bool) : outcome encoder :=
+           (input : list byte) (stop_pos : N) (is_first : bool) : outcome encoder :=
   let '(evs, pres) := parse_body debug input stop_pos in
   do ve <- feed_events lookup (mk_ve (enc_new tpes) is_first false) evs;
   match pres with PDone => Ok (ve_enc ve) | PErr => Err | PPanic => Panic end.
@@ -218,7 +218,7 @@ Definition run_chunk (debug : bool) (tpes : list sig_enc) (lookup : id_lookup) (
   if (length input <? start)%nat then Panic                         (* &input[*start..] *)
   else
     do stop <- usub len 1;
-    read_single_stream debug tpes lookup (skipn start input) stop is_first.
+    read_single_stream debug tpes lookup (skipn start input) (N.of_nat stop) is_first.
 
 (* collect::<Result<Vec<_>>>: a panic in any closure propagates; otherwise an Err wins *)
 Fixpoint collect_results {A} (l : list (outcome A)) : outcome (list A) :=
@@ -250,13 +250,13 @@ Definition read_values_mt (debug : bool) (tpes : list sig_enc) (lookup : id_look
 Definition read_values_st (debug : bool) (tpes : list sig_enc) (lookup : id_lookup) (input : list byte)
   : outcome (list block * list N) :=
   do stop <- usub (length input) 1;
-  do e <- read_single_stream debug tpes lookup input stop true;
+  do e <- read_single_stream debug tpes lookup input (N.of_nat stop) true;
   enc_finish lz_compress e.
 
 (* read_body with Input::Reader: stop_pos = absolute end of the file (header included) *)
 Definition read_values_reader (debug : bool) (tpes : list sig_enc) (lookup : id_lookup) (input : list byte)
            (header_len : nat) : outcome (list block * list N) :=
-  do e <- read_single_stream debug tpes lookup input (header_len + length input) true;
+  do e <- read_single_stream debug tpes lookup input (N.of_nat (header_len + length input)) true;
   enc_finish lz_compress e.
 
 End WithExternals.
